@@ -111,6 +111,46 @@ func finishHist(sum *vh.Summary, cw *vh.CaseWriter, h *hist, src string, toModel
 	}
 }
 
+// misuseScripts are fixed histories OUTSIDE the API preconditions (none of them makes recycle
+// walk a cyclic structure).  The property promises nothing for them; they are replayed in the
+// model without precondition and representation checks, so what is compared is only that the
+// transcription of node.go does, pointer update by pointer update, what the Go code does.
+func misuseScripts(sum *vh.Summary, cw *vh.CaseWriter) {
+	cr := func(n int) opDesc { return opDesc{Op: "create", Kind: "node", Ty: 1, Data: "m", N: n} }
+	scripts := map[string][]opDesc{
+		"double-release": {cr(1), {Op: "remove", N: 1}, {Op: "remove", N: 1}, cr(2), cr(3)},
+		"attach-attached-node": {cr(1), cr(2), cr(3), cr(4), {Op: "add", P: 1, N: 3}, {Op: "add", P: 1, N: 4}, {Op: "add", P: 2, N: 3}},
+		"node-as-its-own-child": {cr(1), {Op: "add", P: 1, N: 1}},
+		"attach-ancestor-below-descendant": {cr(1), cr(2), {Op: "add", P: 1, N: 2}, {Op: "add", P: 2, N: 1}},
+		"use-after-release": {cr(1), cr(2), {Op: "add", P: 1, N: 2}, {Op: "remove", N: 2}, cr(3), {Op: "add", P: 2, N: 3}},
+	}
+	var keys []string
+	for k := range scripts {
+		keys = append(keys, k)
+	}
+	sort.Strings(keys)
+	for _, k := range keys {
+		for _, caching := range []bool{true, false} {
+			idr.VerifResetNodePool()
+			old := idr.VerifSetNodeCaching(caching)
+			h := newHist(caching)
+			names := map[int]*idr.Node{}
+			func() {
+				defer func() { _ = recover() }()
+				for _, o := range scripts[k] {
+					h.execRaw(o, names)
+				}
+			}()
+			idr.VerifSetNodeCaching(old)
+			sum.Count("misuse|"+k+fmt.Sprint(caching), false)
+			sum.Hist("misuse-script:" + k)
+			cw.Add(h.coqLooseCase(), map[string]interface{}{"kind": "misuse-script (model faithfulness outside the preconditions)", "name": k,
+				"case": histCase{Caching: caching, Ops: h.ops}})
+		}
+	}
+	idr.VerifResetNodePool()
+}
+
 // ---- trees handed out by the seven readers ------------------------------------------------------
 
 func readerTrees(r *vh.Rng, sum *vh.Summary, cw *vh.CaseWriter, perFormat int) {
@@ -353,6 +393,7 @@ func main() {
 			// with the node API already shown broken, the readers and the racing goroutines could
 			// build cyclic structures on which recycle recurses without end; the verdict is in
 			readerTrees(r, sum, cw, o.Count(12, 400))
+			misuseScripts(sum, cw)
 			runRace()
 		} else {
 			sum.Hist("readers-and-race-skipped-after-history-failure")
